@@ -214,7 +214,7 @@ func workerMain(o *options) int {
 		flag.Set("rapid.seed", strconv.FormatUint(seed, 10))
 		flag.Set("rapid.checks", strconv.Itoa(o.checks))
 		flag.Set("rapid.nofailfile", "true")
-		flag.Set("rapid.shrinktime", "90s")
+		flag.Set("rapid.shrinktime", envOr("VERIF_SHRINK_TIME", "60s"))
 		var last *Violation
 		failing := false
 		tb := &simpleTB{}
@@ -374,6 +374,9 @@ func runMain(o *options) int {
 	}
 	sort.Slice(distinct, func(i, j int) bool { return distinct[i].Sig < distinct[j].Sig })
 	replayDir := filepath.Join(o.verif, "replays")
+	if v := os.Getenv("VERIF_REPLAY_DIR"); v != "" {
+		replayDir = v
+	}
 	os.MkdirAll(replayDir, 0o755)
 	for _, v := range distinct {
 		path := writeReplay(replayDir, v)
